@@ -478,6 +478,9 @@ class TextNmea2000Gateway(AsyncIOClient):
         by the _receive_loop() method.
         """
         data = await self.reader.readline()
+        if not data:
+            # end of stream: readline() returns b'' immediately from now on
+            raise ConnectionError("Connection closed by the gateway")
         self.logger.debug(f"Received: {data.hex()}")
         line = data.decode('utf-8', errors='ignore').strip()
         try:
@@ -683,6 +686,9 @@ class WaveShareNmea2000Gateway(AsyncIOClient):
         It's called repeatedly by the _receive_loop() method.
         """
         data = await self.reader.read(100)
+        if not data:
+            # end of stream: read() returns b'' immediately from now on
+            raise ConnectionError("Serial connection closed")
         self.logger.debug(f"Received: {data.hex()}")
         assert self._buffer is not None
         self._buffer.extend(data)
